@@ -61,6 +61,14 @@ TRUSTED["C16"] = [
     "havoc contracts of SSI_mpe / pLSCF_mpe / FDD_mpe at the hand-over (their behaviour on a per-mode order list: C11)",
 ]
 
+TRUSTED["C14"] = [
+    "scipy.signal.decimate / detrend / butter+sosfiltfilt as uninterpreted pure functions of (array, parameters) with their "
+    "documented signatures, defaults and shape behaviour (decimate: ceil(N/q) along the axis); unknown keywords raise TypeError",
+    "copy.deepcopy returns distinct arrays with equal contents",
+    "list.remove / enumeration lemmas A7 for the reference/roving split (gen.pre_multisetup)",
+]
+TRUSTED["C03"] = TRUSTED["C14"][2:]
+
 ASSUMPTIONS = {
     "C09": [
         "a mode-shape vector in a pole table is either entirely non-finite or entirely finite",
@@ -76,7 +84,13 @@ ASSUMPTIONS["C02"] = ["the number of setups is enumerated (2 and 3); sensors per
                       "number of modes, factors and shapes are symbolic",
                       "reference part of each mode has a non-vanishing non-conjugated self product (always true for real shapes)"]
 
+ASSUMPTIONS["C14"] = ["number of datasets of a PreGER object enumerated (2); channel counts, reference lists, lengths, q and keyword values symbolic; "
+                      "keyword combinations enumerated over the documented keywords",
+                      "the history clause follows by induction from the per-operation contracts, each proved from an arbitrary state satisfying the "
+                      "representation invariant (Inv_S / Inv_M) and re-establishing it"]
+
 NOT_DECIDED = {
+    "C14": ["absence of aliasing between user arrays and internal state beyond what the contracts state (data is the user's array after __init__, by design)"],
     "C16": ["that the modes finally extracted are those poles follows from C11's per-mode contract, not re-proved here"],
     "C02": ["the end-to-end SSI clause (shapes coming from SSI runs) is left to C01/C03"],
     "C12": ["the Gram/projection identity itself for the data-driven matrix is a trusted linear-algebra lemma; the proof pins the "
